@@ -1042,7 +1042,7 @@ func unparseQuery(q b6.Query) (string, bool) {
 		qs := make([]string, len(q))
 		for i := range q {
 			var ok bool
-			if qs[i], ok = unparseQuery(q[i]); !ok {
+			if qs[i], ok = unparseQueryOperand(q[i], i == len(q)-1); !ok {
 				return "", false
 			}
 		}
@@ -1051,7 +1051,7 @@ func unparseQuery(q b6.Query) (string, bool) {
 		qs := make([]string, len(q))
 		for i := range q {
 			var ok bool
-			if qs[i], ok = unparseQuery(q[i]); !ok {
+			if qs[i], ok = unparseQueryOperand(q[i], i == len(q)-1); !ok {
 				return "", false
 			}
 		}
@@ -1066,6 +1066,21 @@ func unparseQuery(q b6.Query) (string, bool) {
 		return unparseQuery(*q)
 	}
 	return "", false
+}
+
+// unparseQueryOperand prints one operand of & or |. Neither operator has
+// precedence over the other and both group to the right ([a & b | c] is
+// a & [b | c]), so an operand that is itself an intersection or union needs
+// its own brackets unless it's the last one.
+func unparseQueryOperand(q b6.Query, last bool) (string, bool) {
+	s, ok := unparseQuery(q)
+	if ok && !last {
+		switch q.(type) {
+		case b6.Intersection, b6.Union, *b6.Intersection, *b6.Union:
+			s = "[" + s + "]"
+		}
+	}
+	return s, ok
 }
 
 func UnparseExpression(e b6.Expression) (string, bool) {
